@@ -155,14 +155,14 @@ Section RunC15.
       apply in_app_or in H. destruct H as [H|H]; [exact (old_rows_lf _ _ _ _ H)|exact (old_totals_lf _ _ _ _ _ H)].
   Qed.
 
-  Lemma color_strip_process_kind : forall k c (d : db) perm st ln,
-    strip_sgr (process_bytes NM (reg_rep k (set_color c true) d) perm st ln)
-    = strip_sgr (process_bytes NM (reg_rep k (set_color c false) d) perm st ln).
+  Lemma color_strip_process_kind : forall k c (d : db) perm ln,
+    strip_sgr (process_bytes NM (reg_rep k (set_color c true) d) perm (r_init NM (reg_rep k (set_color c true) d)) ln)
+    = strip_sgr (process_bytes NM (reg_rep k (set_color c false) d) perm (r_init NM (reg_rep k (set_color c false) d)) ln).
   Proof.
-    intros [| |] c d perm st ln; cbn [reg_rep].
-    - apply (color_strip_process_template NM c d perm st ln).
-    - apply (color_strip_process_summary NM c d perm st ln).
-    - apply (color_strip_process_old NM c d perm st ln).
+    intros [| |] c d perm ln; cbn [reg_rep].
+    - apply (color_strip_process_template NM c d perm tt ln).
+    - apply (color_strip_process_summary NM c d perm tt ln).
+    - apply (color_strip_process_old NM c d perm tt ln).
   Qed.
 
   (** *** colour, whole run *)
@@ -191,7 +191,7 @@ Section RunC15.
     apply strip_flat_map_eq. intros [i ln] _. cbn [fst snd]. repeat split.
     - apply process_bytes_ends_ok.
     - apply process_bytes_ends_ok.
-    - destruct k; apply (color_strip_process_kind _ c d).
+    - apply color_strip_process_kind.
   Qed.
 
   (** *** totals switches, whole run (template reporter) *)
@@ -231,7 +231,10 @@ Section RunC15.
     destruct (run_output_days KTemplate (set_totals c true false) w op bt et odb olog d toks Hs Ho Hr Ht) as [A _].
     destruct (run_output_days KTemplate (set_totals c false false) w op bt et odb olog d toks Hs Ho Hr Ht) as [B _].
     destruct (run_output_days KTemplate (set_totals c true true) w op bt et odb olog d toks Hs Ho Hr Ht) as [C _].
-    cbn [reg_rep] in A, B, C. rewrite A, B, C. fold days.
+    change (reg_rep KTemplate (set_totals c true false)) with (rep_template NM (set_totals c true false)) in A.
+    change (reg_rep KTemplate (set_totals c false false)) with (rep_template NM (set_totals c false false)) in B.
+    change (reg_rep KTemplate (set_totals c true true)) with (rep_template NM (set_totals c true true)) in C.
+    rewrite A, B, C. fold days. cbn [reg_rep r_init rep_template].
     repeat split; apply flat_map_ext; intros [i ln]; cbn [fst snd];
       destruct (template_day_pieces c (o_day (w_or w) i) d tt ln) as (H1 & H2 & H3); assumption.
   Qed.
@@ -253,7 +256,9 @@ Section RunC15.
     intros c w op bt et odb olog d toks Hs Ho Hr Ht days item.
     destruct (run_output_days KTemplate c w op bt et odb olog d toks Hs Ho Hr Ht) as [A _].
     destruct (run_output_days KOld c w op bt et odb olog d toks Hs Ho Hr Ht) as [B _].
-    cbn [reg_rep] in A, B. rewrite A, B. fold days. split; apply flat_map_ext; intros [i ln]; cbn [fst snd].
+    change (reg_rep KTemplate c) with (rep_template NM c) in A.
+    change (reg_rep KOld c) with (rep_old NM c) in B.
+    rewrite A, B. fold days. cbn [reg_rep]. split; apply flat_map_ext; intros [i ln]; cbn [fst snd].
     - apply templates_same_rows_process.
     - apply templates_same_rows_old.
   Qed.
